@@ -272,6 +272,8 @@ def u2u3(fb, chk, defs):
                     ok = vals == [0, 1]
                 else:
                     ok = nm == prov[""]
+                    if not ok and r[0] == "param" and f.argc == 2:
+                        ok = True   # the operation has a single value parameter: it is the argument whatever it is called
                 chk.check(ok, "U3", key + ":arg", "argument <- %s" % nm,
                           "%s passes %s to %s; the UAPI argument is the caller's `%s`" % (f.short, show(arg)[:60], ioc, prov[""]),
                           f.loc(t["line"]))
@@ -295,6 +297,8 @@ def u2u3(fb, chk, defs):
                             r = r2
                         if r[0] == "const" and len(alts) > 1:
                             consts.append(r[1])
+                        elif r[0] == "cname" and isinstance(r[2], int) and len(alts) > 1:
+                            consts.append(r[2] - (1 << 32) if r[2] >= (1 << 31) and r[3] in ("i32", "c_int") else r[2])
                         elif r[0] == "param":
                             nms.add(r[2])
                         elif r[0] == "field":
